@@ -98,6 +98,17 @@ def programs():
                 else:
                     src = ENRICH_HEAD + tmpl.replace('{E}', expr).replace('{G}', name) + ENRICH_TAIL
                 yield label, src
+    # a default value that names the builtin and is bound to a parameter of the same name: the default is evaluated in the ENCLOSING scope, so
+    # this is a reference to the builtin (the parameter then shadows it inside the function only)
+    for name in TRIGGER_NAMES:
+        for pos, tmpl in (
+                ('default-same-name', 'def scope_function(parameter_name):\n def defaulted_function({G}={G}):\n  inner_local=parameter_name\n  return inner_local+inner_local\n return defaulted_function()\nobs(scope_function(1))\n'),
+                ('kwonly-default-same-name', 'def scope_function(parameter_name,*,{G}={G}):\n inner_local=parameter_name\n return inner_local+inner_local\nobs(scope_function(1))\n'),
+                ('kwonly-default-same-name-nested', 'def scope_function(parameter_name):\n def defaulted_function(*,{G}={G}):\n  inner_local=parameter_name\n  return inner_local+inner_local\n return defaulted_function()\nobs(scope_function(1))\n'),
+                ('lambda-default-same-name', 'def scope_function(parameter_name):\n inner_local=lambda {G}={G}:parameter_name\n return inner_local()\nobs(scope_function(1))\n'),
+                ('method-named-like-trigger', 'class ScopeClass:\n def {G}(self,method_argument):\n  method_local=method_argument\n  return method_local\n def other(self,method_argument):\n  method_local={G}\n  return method_argument\nobs(ScopeClass().other(2))\n'),
+                ('class-attr-named-like-trigger', 'class ScopeClass:\n {G}=1\n def other(self,method_argument):\n  method_local=({G},method_argument)[1]\n  return method_local+method_local\nobs(ScopeClass().other(2))\n')):
+            yield 'taint:%s:samename:%s' % (name, pos), ENRICH_HEAD + tmpl.replace('{G}', name) + ENRICH_TAIL
     # star import (module level only; a star import inside a function is a syntax error)
     for where in ('first', 'middle', 'last'):
         star = 'from os.path import *\n'
